@@ -19,17 +19,19 @@
    -- so they are a function of the bytes alone, and the run that delivers a
    string in one piece is just one of the runs.
 
-   This is the *design*: where the shipped code is known to depart from it the
-   operators describe the intended behaviour (marked DESIGN below) and the
-   departure is found by the binding (TraceH3), not hidden in the model:
+   This is the *design*.  Three points of it were found missing in the code as
+   first shipped and have been repaired there since (Shipped = TRUE gives the
+   old behaviour, for the probe that the theorem tells the difference):
      - a blocked header block is resumed as the frame it came in
        (HEADERS or PUSH_PROMISE);
      - a stream whose last frame carries no end-of-stream flag of its own
-       (PUSH_PROMISE, ignored frame types) still reports its end. *)
+       (PUSH_PROMISE, ignored frame types) still reports its end;
+     - the end of a request or push stream in the middle of a frame header or
+       payload closes the connection with H3_FRAME_ERROR (RFC 9114 7.1). *)
 EXTENDS H3Frames, TLC
 
-CONSTANT Shipped   \* FALSE: the design.  TRUE: the two DESIGN points as the code was shipped -- used only
-                   \* to show that the theorem tells the difference (TLC must then find a counterexample)
+CONSTANT Shipped   \* FALSE: the design.  TRUE: the three points below as the code was first shipped -- used
+                   \* only to show that the theorem tells the difference (TLC must then find a counterexample)
 
 \* ------------------------------------------------------------------ events
 Hev(sid, blk, push, end)   == [k |-> "H", sid |-> sid, blk |-> blk, push |-> push, end |-> end]
@@ -95,7 +97,13 @@ HandleF(c, s, ft, fd, resume, ended) ==
 RECURSIVE ReqLoop(_, _, _, _, _, _)
 ReqLoop(c, s, pos, consumed, evs, fin) ==
   LET buf == s.buf
-      Finish(s2, cons, evs2) == [s |-> [s2 EXCEPT !.buf = Slice(buf, cons, Len(buf))], evs |-> evs2, err |-> ""] IN
+      \* after the loop: drop what was consumed; a frame cut short by the end of
+      \* the stream is a connection error (not judged while the stream is blocked)
+      Finish(s2, cons, evs2) ==
+        LET s3 == [s2 EXCEPT !.buf = Slice(buf, cons, Len(buf))] IN
+        IF ~Shipped /\ s3.ended /\ ~s3.blocked /\ (s3.buf # <<>> \/ s3.fsize # None)
+        THEN [s |-> s3, evs |-> <<>>, err |-> "H3_FRAME_ERROR"]
+        ELSE [s |-> s3, evs |-> evs2, err |-> ""] IN
   IF pos >= Len(buf) THEN Finish(s, consumed, evs)
   ELSE
   LET needHdr == s.fsize = None
@@ -131,9 +139,11 @@ ReqF(c, s0, data, fin) ==
   ELSE IF s.ftype = WT_STREAM /\ s.ses # None                    \* WEBTRANSPORT_STREAM fragments
   THEN R([s EXCEPT !.buf = <<>>], <<Wev(s.sid, s.buf, s.ses, fin)>>)
   ELSE IF s.ftype = DATA /\ s.fsize # None /\ Len(s.buf) < s.fsize   \* DATA frame fragments
-  THEN R([s EXCEPT !.fsize = @ - Len(s.buf), !.buf = <<>>], <<Dev(s.sid, s.buf, s.push, FALSE)>>)
+  THEN IF fin /\ ~Shipped THEN [s |-> s, evs |-> <<>>, err |-> "H3_FRAME_ERROR"]      \* ... cut by the end of the stream
+       ELSE R([s EXCEPT !.fsize = @ - Len(s.buf), !.buf = <<>>], <<Dev(s.sid, s.buf, s.push, FALSE)>>)
   ELSE IF fin /\ s.buf = <<>>                                     \* lone FIN
-  THEN R(s, <<Dev(s.sid, <<>>, s.push, TRUE)>>)
+  THEN IF s.fsize # None /\ ~Shipped THEN [s |-> s, evs |-> <<>>, err |-> "H3_FRAME_ERROR"]
+       ELSE R(s, <<Dev(s.sid, <<>>, s.push, TRUE)>>)
   ELSE ReqLoop(c, s, 0, 0, <<>>, fin)
 
 \* --------------------------------------------------------- _handle_control_frame
@@ -324,8 +334,8 @@ Extend(sid, f) ==
 Feed(sid, n, f) ==
   /\ n <= Len(inp[sid]) - pos[sid]
   /\ DeliveryOk(Slice(inp[sid], pos[sid], pos[sid] + n), f)
-  \* the stream ends here: everything written is delivered and no frame is cut
-  /\ f => ~finDone[sid] /\ sid # ENC /\ pos[sid] + n = Len(inp[sid]) /\ WellFramed(sid, inp[sid])
+  \* the peer may end the stream after any byte it has written (also in the middle of a frame)
+  /\ f => sid # ENC
   /\ ~finDone[sid]
   /\ LET r == HandleEventF(c, sid, Slice(inp[sid], pos[sid], pos[sid] + n), f) IN
        /\ c' = r.c
